@@ -236,6 +236,19 @@ def effective(case):
     return eff
 
 
+_EXPLICIT_IF_UNDOCUMENTED = {"retries": 0, "retry-wait-period": 0.5, "retry-on-timeout": True, "retry-on-error": False}
+
+
+def complete_params(case):
+    """If docs/track.rst no longer states a default for a parameter, the harness passes that parameter explicitly (its own choice
+    of value), so that no verdict depends on an undocumented default."""
+    defaults, _ = documented()
+    for key, val in _EXPLICIT_IF_UNDOCUMENTED.items():
+        if key not in defaults and key not in case["params"]:
+            case["params"][key] = val
+    return case
+
+
 def _us(x):
     return int(round(x * US))
 
@@ -248,6 +261,7 @@ def execute(case):
 
     lp = loop()
     lp.vt = 0.0
+    complete_params(case)
     script = case["script"]
     cap = len(script) + 3
     calls = []
@@ -360,7 +374,7 @@ def _case_from_state(st, rnd, src):
 
 
 def _key(case):
-    eff = effective(case)
+    eff = effective(complete_params(case))
     return (eff["retries"], eff["until"], eff["onTimeout"], eff["onError"], eff["wait"], tuple((o, d) for o, d, _ in case["script"]))
 
 
@@ -373,14 +387,17 @@ def paths_from_dump(out, cfg_name, max_depth, rnd, src, check):
         raise tlc.MachineryError("model violates %s in %s (the repaired transcription is supposed to satisfy the property): %s" % (res.invariant_violated, cfg_name, res.out[-1500:]))
     if not check and (res.invariant_violated or res.deadlock):
         raise tlc.MachineryError("unexpected violation in %s: %s" % (cfg_name, res.out[-1500:]))
-    cases = []
+    paths = []
     n_states = 0
     for st in parse_dump(dump + ".dump" if os.path.exists(dump + ".dump") else dump):
         n_states += 1
         terminal = st["status"]["k"] != "running"
         if not terminal and len(st["calls"]) < max_depth:
             continue  # a proper prefix of other paths
-        cases.append(_case_from_state(st, rnd, src))
+        paths.append(st)
+    # TLC's workers write the dump in a run-dependent order: sort before any seeded choice is made
+    paths.sort(key=lambda st: (sorted(st["cfg"].items()), [(c["o"], c["s"], c["e"]) for c in st["calls"]]))
+    cases = [_case_from_state(st, rnd, src) for st in paths]
     out.note("%s: %d states (depth %d, %.1fs) -> %d maximal paths" % (cfg_name, n_states, res.depth, res.wall_s, len(cases)))
     return cases
 
@@ -456,11 +473,23 @@ def _signature(item, clauses):
     return sig
 
 
+SITUATIONS = {}
+
+
+def _count_situations(item):
+    """(outcome class, retry-on-timeout, effective retry-on-error, is it the last allowed attempt) observed at an invocation."""
+    c = item["c"]
+    for j, call in enumerate(item["calls"]):
+        key = (call["o"], c["onTimeout"], c["until"] or c["onError"], (not c["until"]) and j + 1 >= c["retries"] + 1)
+        SITUATIONS[key] = SITUATIONS.get(key, 0) + 1
+
+
 def run_cases(cases, out, label, chunk=60000):
     items = []
     index = {}
     for ci, case in enumerate(cases):
         item, detail = execute(case)
+        _count_situations(item)
         item["id"] = "%s-%d" % (label, ci)
         items.append(item)
         index[item["id"]] = (case, item, detail)
@@ -564,6 +593,9 @@ def run(ctx, out):
     out.sample({"source": sims[longest]["src"], "params": sims[longest]["params"], "script": sims[longest]["script"], "recorded": {k: items[longest][k] for k in ("c", "calls", "st", "t")}})
     # ---- registry table + runs through the registered chains
     retryable_ops = check_table(out)
+    missing = sorted(k for k in _EXPLICIT_IF_UNDOCUMENTED if k not in documented()[0])
+    if missing:
+        out.note("docs/track.rst states no default for %s: these parameters are always passed explicitly" % missing)
     # ---- cases not derived from TLC
     rnd_cases = random_cases(ctx.seed + 160, 3000 if quick else 60000)
     items = run_cases(rnd_cases, out, "rnd")
@@ -580,6 +612,16 @@ def run(ctx, out):
     degenerate = sum(1 for c in cases + rnd_cases if effective(c)["retries"] < 0 and not effective(c)["until"])
     out.note("degenerate configuration retries=-1 (no attempt, None returned): %d cases, accepted by the property as stated" % degenerate)
     out.note("leg C2S: %d executions validated by TLC" % out.traces_validated)
+    missing = [(o, a, b, last) for o in OUTCOMES for a in (False, True) for b in (False, True) for last in (False, True) if not SITUATIONS.get((o, a, b, last))]
+    out.extra["situations_exercised"] = "%d of %d (outcome class x retry-on-timeout x retry-on-error x last attempt or not), least often: %d executions" % (
+        80 - len(missing),
+        80,
+        min(SITUATIONS.values()) if SITUATIONS else 0,
+    )
+    if missing:
+        out.vacuous.append("situations never exercised on the implementation: %s" % missing[:5])
+    # report the smallest failing case of every kind first
+    out.violations.sort(key=lambda v: (len(v.case["script"]), len(repr(v.case)), repr(v.case)))
 
 
 def replay(ctx, case):
